@@ -18,6 +18,7 @@ use futures::FutureExt;
 use proptest::prelude::*;
 use redis_sim::replication::{GossipMessage, ReplicaId, ReplicatedValue, ReplicationDelta};
 use redis_sim::streaming::{
+    CheckpointConfig, CheckpointManager, CompactionConfig, Compactor,
     CheckpointInfo, CheckpointReader, CheckpointWriter, Compression, InMemoryObjectStore,
     InMemoryWalStore, Manifest, ManifestManager, ObjectStore, RecoveryManager, SegmentInfo,
     SegmentReader, SegmentWriter, WalEntry, WalRotator,
@@ -25,7 +26,8 @@ use redis_sim::streaming::{
 use serde::{Deserialize, Serialize};
 use serde_json::{json, Value as J};
 use std::collections::{BTreeMap, HashMap};
-use std::sync::Mutex;
+use std::sync::{Arc, Mutex};
+use vcore::time::VerifTime;
 use vcore::proj::peer_view;
 use vcore::runner::catch;
 use vcore::{CaseCtx, Level, Session};
@@ -252,6 +254,12 @@ impl SegRecovery {
         }
         Ok(r.deltas)
     }
+    /// the object is already in the store (call after `run`): what StreamingIntegration::recover uses
+    fn run_progress(&self) -> Result<Vec<ReplicationDelta>, String> {
+        let r = ready(self.mgr.recover_with_progress(|_| {}))
+            .map_err(|e| format!("recover_with_progress: {}", e))?;
+        Ok(r.deltas)
+    }
 }
 
 /// (state, key_count, timestamp_ms, last_segment_id)
@@ -297,6 +305,27 @@ impl CkRecovery {
             Some(s) => Ok(state_proj(&s)),
             None => Err("harness: no checkpoint state returned".into()),
         }
+    }
+    /// the object is already in the store (call after `run`)
+    fn run_progress(&self) -> Result<BTreeMap<String, J>, String> {
+        let r = ready(self.mgr.recover_with_progress(|_| {}))
+            .map_err(|e| format!("recover_with_progress: {}", e))?;
+        match r.checkpoint_state {
+            Some(s) => Ok(state_proj(&s)),
+            None => Err("harness: no checkpoint state returned".into()),
+        }
+    }
+    /// the third public reader of checkpoints: CheckpointManager::load_checkpoint
+    fn run_manager(&self) -> Result<BTreeMap<String, J>, String> {
+        let cm = CheckpointManager::with_time_source(
+            Arc::new(self.store.clone()),
+            "p".to_string(),
+            ManifestManager::new(self.store.clone(), "p"),
+            CheckpointConfig::test(),
+            VerifTime::new(0),
+        );
+        let d = ready(cm.load_checkpoint(&self.key)).map_err(|e| format!("load_checkpoint: {}", e))?;
+        Ok(state_proj(&d.state))
     }
 }
 
@@ -734,6 +763,7 @@ fn check_mut_segment(case: &MutCase, ctx: &mut CaseCtx<'_>) -> Result<(), String
         for (name, out) in [
             ("SegmentReader open/validate/deltas", catch(|| seg_direct(bytes))),
             ("RecoveryManager::recover", catch(|| via.run(bytes))),
+            ("RecoveryManager::recover_with_progress", catch(|| via.run_progress())),
         ] {
             match out {
                 Err(p) => return Err(format!("segment, {}: {} -> {}", m.describe(n, field), name, p)),
@@ -806,6 +836,24 @@ fn check_mut_checkpoint(case: &MutCase, ctx: &mut CaseCtx<'_>) -> Result<(), Str
                     ));
                 }
                 invisible = true;
+            }
+        }
+        for (name, out) in [
+            ("RecoveryManager::recover_with_progress", catch(|| via.run_progress())),
+            ("CheckpointManager::load_checkpoint", catch(|| via.run_manager())),
+        ] {
+            match out {
+                Err(p) => return Err(format!("checkpoint, {}: {} -> {}", m.describe(n, field), name, p)),
+                Ok(Err(_)) => {}
+                Ok(Ok(got)) => {
+                    if got != want_state {
+                        return Err(format!(
+                            "checkpoint, {}: {} accepted the damaged image and returned a different state ({} keys, written {})",
+                            m.describe(n, field), name, got.len(), want_state.len()
+                        ));
+                    }
+                    invisible = true;
+                }
             }
         }
         tally(&mut local, "checkpoint", field, &m, invisible);
@@ -892,6 +940,21 @@ fn check_mut_wal(case: &MutCase, ctx: &mut CaseCtx<'_>) -> Result<(), String> {
                     }
                 }
             }
+            // the reader recover_with_wal uses: every entry recover_all_entries returned decodes
+            match catch(|| {
+                WalRotator::new(store.clone(), 1 << 30)
+                    .and_then(|r| r.recover_entries_after(0))
+                    .map(|d| d.len())
+                    .map_err(|e| e.to_string())
+            }) {
+                Ok(Ok(c)) if c == got.len() => {}
+                other => {
+                    return Err(format!(
+                        "wal file {}, {}: recover_entries_after(0) = {:?} but recover_all_entries returned {} entries",
+                        name, m.describe(n, field), other, got.len()
+                    ))
+                }
+            }
             tally(&mut local, "wal", field, &m, k == entries.len());
             Ok(())
         });
@@ -973,7 +1036,400 @@ fn mut_case() -> impl Strategy<Value = MutCase> {
         })
 }
 
+
+// ---------------------------------------------------------------------------------------
+// size classes: serialized updates at powers of two +- a few bytes (64 KiB … 8 MiB)
+// ---------------------------------------------------------------------------------------
+
+#[derive(Clone, Debug, Serialize, Deserialize, Hash)]
+struct SizeCase {
+    /// serialized (bincode) size of the big update, exactly
+    target: u32,
+    /// 0 = one large string, 1 = a hash of 64 fields whose total reaches the target
+    shape: u8,
+}
+
+fn serialized_len(d: &ReplicationDelta) -> Result<usize, String> {
+    Ok(WalEntry::from_delta(d, d.value.timestamp.time)
+        .map_err(|e| format!("from_delta: {}", e))?
+        .data
+        .len())
+}
+
+/// An update built through the real API whose serialized size is exactly `target` bytes.
+fn sized_delta(target: usize, shape: u8) -> Result<ReplicationDelta, String> {
+    use redis_sim::redis::SDS;
+    use redis_sim::replication::{ConsistencyLevel, ShardReplicaState};
+    let build = |payload: usize| -> ReplicationDelta {
+        let mut st = ShardReplicaState::new(ReplicaId::new(2), ConsistencyLevel::Causal);
+        let bytes = |len: usize, seed: u8| worldgen::Payload::Big { len: len as u32, seed }.bytes();
+        if shape == 0 {
+            st.record_write("big:string".into(), SDS::new(bytes(payload, 7)), Some(60_000))
+        } else {
+            let f = 64usize;
+            let fields: Vec<(String, SDS)> = (0..f)
+                .map(|i| {
+                    let len = payload / f + if i == f - 1 { payload % f } else { 0 };
+                    (format!("field-{:02}", i), SDS::new(bytes(len, i as u8)))
+                })
+                .collect();
+            st.record_hash_write("big:hash".into(), fields)
+        }
+    };
+    let s0 = serialized_len(&build(0))?;
+    if target < s0 {
+        return Err(format!("harness: target {} below the empty size {}", target, s0));
+    }
+    let d = build(target - s0);
+    let got = serialized_len(&d)?;
+    if got != target {
+        return Err(format!("harness: aimed at {} serialized bytes, got {}", target, got));
+    }
+    Ok(d)
+}
+
+/// serde-free projection only: the serde-based view of an 8 MiB value is a JSON array of 8 M numbers
+fn lite(d: &ReplicationDelta) -> J {
+    json!({"key": d.key, "src": d.source_replica.0, "fields": worldgen::access_view(&d.value)})
+}
+
+fn lite_diff(what: &str, want: &[J], got: &[ReplicationDelta]) -> Result<(), String> {
+    if got.len() != want.len() {
+        return Err(format!("{}: {} updates written, {} read back", what, want.len(), got.len()));
+    }
+    for (i, (w, g)) in want.iter().zip(got.iter()).enumerate() {
+        if *w != lite(g) {
+            return Err(format!("{}: update #{} (key {}) reads back different", what, i, w["key"]));
+        }
+    }
+    Ok(())
+}
+
+fn check_sizes(case: &SizeCase, ctx: &mut CaseCtx<'_>) -> Result<(), String> {
+    use redis_sim::redis::SDS;
+    use redis_sim::replication::LamportClock;
+    let t = case.target as usize;
+    ctx.label(match t {
+        0..=131_072 => "size_64k",
+        131_073..=1_048_575 => "size_below_1m",
+        1_048_576 => "size_exactly_1m",
+        1_048_577..=1_100_000 => "size_just_above_1m",
+        1_100_001..=4_000_000 => "size_2m",
+        _ => "size_8m",
+    });
+    ctx.label(if case.shape == 0 { "shape_one_string" } else { "shape_hash_64_fields" });
+    let small = |k: &str, time: u64| {
+        ReplicationDelta::new(
+            k.to_string(),
+            ReplicatedValue::with_value(
+                SDS::from_str("small"),
+                LamportClock { time, replica_id: ReplicaId::new(1) },
+            ),
+            ReplicaId::new(1),
+        )
+    };
+    let huge = sized_delta(t, case.shape)?;
+    let batch = vec![small("before", 1), huge.clone(), small("after", 3)];
+    let want: Vec<J> = batch.iter().map(lite).collect();
+
+    // WAL entry
+    let e = WalEntry::from_delta(&huge, huge.value.timestamp.time).map_err(|e| e.to_string())?;
+    let enc = e.encode();
+    match WalEntry::decode(&enc) {
+        Some((back, used)) if used == enc.len() => {
+            lite_diff("WalEntry", &want[1..2], &[back.to_delta().map_err(|e| e.to_string())?])?
+        }
+        Some((_, used)) => return Err(format!("WalEntry::decode consumed {} of {} bytes", used, enc.len())),
+        None => {
+            return Err(format!(
+                "WalEntry::decode rejects an intact entry whose serialized update is {} bytes",
+                t
+            ))
+        }
+    }
+    // WAL file sets: one file holding small, huge, small; and one file per entry
+    for max_file in [1usize << 30, 64] {
+        let (store, files) = write_wal(&batch, max_file)?;
+        let got = wal_read(&store)?;
+        if got.len() != 3 {
+            return Err(format!(
+                "WAL ({} file(s)) holding a small, a {}-byte and a small entry: {} of 3 entries recovered",
+                files.len(), t, got.len()
+            ));
+        }
+        let back: Vec<ReplicationDelta> =
+            got.iter().map(|e| e.to_delta()).collect::<Result<_, _>>().map_err(|e| e.to_string())?;
+        lite_diff("WAL files", &want, &back)?;
+        let after = WalRotator::new(store.clone(), 1 << 30)
+            .and_then(|r| r.recover_entries_after(0))
+            .map_err(|e| e.to_string())?;
+        lite_diff("recover_entries_after(0)", &want, &after)?;
+    }
+    // segment
+    {
+        let img = write_segment(&batch)?;
+        lite_diff("segment", &want, &seg_direct(&img).map_err(|e| format!("segment: intact image rejected: {}", e))?)?;
+        lite_diff("segment via RecoveryManager", &want, &SegRecovery::new(&batch, img.len())?.run(&img)?)?;
+    }
+    // checkpoint
+    {
+        let state = last_per_key(&batch);
+        let img = write_checkpoint(&state, 1, 0)?;
+        let r = CheckpointReader::open(&img).map_err(|e| format!("checkpoint open: {}", e))?;
+        r.validate().map_err(|e| format!("checkpoint: intact image rejected: {}", e))?;
+        let d = r.load().map_err(|e| format!("checkpoint load: {}", e))?;
+        for (k, v) in &state {
+            match d.state.get(k) {
+                Some(b) if worldgen::access_view(b) == worldgen::access_view(v) => {}
+                _ => return Err(format!("checkpoint: key {:?} reads back different or missing", k)),
+            }
+        }
+        if d.state.len() != state.len() {
+            return Err(format!("checkpoint: {} keys written, {} loaded", state.len(), d.state.len()));
+        }
+    }
+    // gossip
+    {
+        let m = GossipMessage::new_delta_batch(ReplicaId::new(2), batch.clone(), 1);
+        let bytes = m.serialize().map_err(|e| format!("gossip serialize: {}", e))?;
+        let back = GossipMessage::deserialize(&bytes).map_err(|e| format!("gossip deserialize: {}", e))?;
+        lite_diff("gossip DeltaBatch", &want, &back.into_deltas().unwrap_or_default())?;
+    }
+    ctx.nontrivial(case);
+    Ok(())
+}
+
+fn size_cases() -> Vec<SizeCase> {
+    const M: i64 = 1 << 20;
+    let mut targets: Vec<i64> = vec![1 << 16, 2 * M, 8 * M];
+    for off in [-64i64, -17, -16, -1, 0, 1, 16, 17, 64] {
+        targets.push(M + off);
+    }
+    let mut v = Vec::new();
+    for t in targets {
+        for shape in [0u8, 1] {
+            v.push(SizeCase { target: t as u32, shape });
+        }
+    }
+    v
+}
+
+// ---------------------------------------------------------------------------------------
+// a second consumer of segments: compaction reads, merges, rewrites and deletes them
+// ---------------------------------------------------------------------------------------
+
+#[derive(Clone, Debug, Serialize, Deserialize)]
+struct CompactCase {
+    world: WorldSpec,
+    /// 2..=3 segments: the damaged one + 1-2 healthy ones
+    parts: u8,
+    which: u8,
+    min_segments: u8,
+    samples: Vec<(u16, u8)>,
+}
+
+fn fold_proj<'a>(ds: impl IntoIterator<Item = &'a ReplicationDelta>) -> BTreeMap<String, J> {
+    let mut st: BTreeMap<String, ReplicatedValue> = BTreeMap::new();
+    for d in ds {
+        match st.remove(&d.key) {
+            Some(old) => {
+                st.insert(d.key.clone(), old.merge(&d.value));
+            }
+            None => {
+                st.insert(d.key.clone(), d.value.clone());
+            }
+        }
+    }
+    st.iter().map(|(k, v)| (k.clone(), vproj(v))).collect()
+}
+
+fn check_mut_segment_compact(case: &CompactCase, ctx: &mut CaseCtx<'_>) -> Result<(), String> {
+    let (deltas, _) = worldgen::run(&case.world);
+    classify(&case.world, &deltas, ctx);
+    if deltas.len() < 2 {
+        return Ok(());
+    }
+    let k = (case.parts as usize).clamp(2, 3).min(deltas.len());
+    let mut parts: Vec<Vec<ReplicationDelta>> = vec![Vec::new(); k];
+    for (i, d) in deltas.iter().enumerate() {
+        parts[i % k].push(d.clone());
+    }
+    let which = (case.which as usize * k) >> 8;
+    let min_segments = 1 + (case.min_segments as usize % 2);
+    let imgs: Vec<Vec<u8>> = parts.iter().map(|p| write_segment(p)).collect::<Result<_, _>>()?;
+    let mut manifest = Manifest::new(1);
+    let keys: Vec<String> = (0..k).map(|i| format!("p/segments/segment-{:08}.seg", i)).collect();
+    for (i, p) in parts.iter().enumerate() {
+        manifest.add_segment(SegmentInfo {
+            id: i as u64,
+            key: keys[i].clone(),
+            record_count: p.len() as u32,
+            size_bytes: imgs[i].len() as u64,
+            min_timestamp: p.iter().map(|d| d.value.timestamp.time).min().unwrap_or(0),
+            max_timestamp: p.iter().map(|d| d.value.timestamp.time).max().unwrap_or(0),
+        });
+    }
+    let truth = fold_proj(deltas.iter());
+    // (what recovery returns after compaction ran over the store, did compaction report Ok)
+    let run_once = |mutated: &[u8]| -> Result<(BTreeMap<String, J>, bool), String> {
+        let store = InMemoryObjectStore::new();
+        for i in 0..k {
+            let bytes: &[u8] = if i == which { mutated } else { &imgs[i] };
+            ready(store.put(&keys[i], bytes)).map_err(|e| e.to_string())?;
+        }
+        ready(ManifestManager::new(store.clone(), "p").save(&manifest)).map_err(|e| e.to_string())?;
+        let mut c = Compactor::with_time_source(
+            Arc::new(store.clone()),
+            "p".to_string(),
+            ManifestManager::new(store.clone(), "p"),
+            CompactionConfig {
+                target_segment_size: 1 << 30,
+                max_segments: 2,
+                min_segments_to_compact: min_segments,
+                max_segments_per_compaction: 8,
+                tombstone_ttl: std::time::Duration::from_secs(3600),
+                compression_enabled: false,
+            },
+            // clock 0: the tombstone cutoff is 0, no tombstone is collected (KF-C13-02/03 are C13's)
+            VerifTime::new(0),
+        );
+        let compacted = ready(c.compact()).is_ok();
+        let r = ready(RecoveryManager::new(store.clone(), "p", 1).recover())
+            .map_err(|e| format!("recover: {}", e))?;
+        Ok((fold_proj(r.deltas.iter()), compacted))
+    };
+    match run_once(&imgs[which]) {
+        Ok((got, true)) if got == truth => {}
+        Ok((got, ran)) => {
+            return Err(format!(
+                "baseline (nothing damaged): compaction {} and recovery afterwards {} the merge of what was written",
+                if ran { "ran" } else { "refused to run" },
+                if got == truth { "returns" } else { "does NOT return" }
+            ))
+        }
+        Err(e) => return Err(format!("baseline (nothing damaged): {}", e)),
+    }
+    let img = &imgs[which];
+    let n = img.len();
+    let mut rec_starts = Vec::new();
+    let mut off = 40usize;
+    while off + 4 <= n - 24 {
+        rec_starts.push(off);
+        let l = u32::from_le_bytes([img[off], img[off + 1], img[off + 2], img[off + 3]]) as usize;
+        off += 4 + l;
+    }
+    let structural = |p: usize| seg_field(p, n, &rec_starts) != "record.body";
+    let mut local = BTreeMap::new();
+    let mut laundered_ok = 0u64;
+    let count = enumerate(img, &structural, false, &case.samples, &mut |m, bytes| {
+        let field = seg_field(m.pos().min(n - 1), n, &rec_starts);
+        match catch(|| run_once(bytes)) {
+            Err(p) => Err(format!("segment {} of {}, {}: Compactor::compact + recover -> {}", which, k, m.describe(n, field), p)),
+            Ok(Err(_)) => {
+                tally(&mut local, "segment+compaction", field, &m, false);
+                Ok(())
+            }
+            Ok(Ok((got, ran))) => {
+                if got != truth {
+                    let a: Vec<J> = truth.iter().map(|(k, v)| json!([k, v])).collect();
+                    let b: Vec<J> = got.iter().map(|(k, v)| json!([k, v])).collect();
+                    return Err(format!(
+                        "segment {} of {}, {}: Compactor::compact (reported {}) consumed the damaged segment; recovery afterwards succeeds with data that was never written: {}",
+                        which, k, m.describe(n, field), if ran { "Ok" } else { "Err" }, first_diff(&a, &b)
+                    ));
+                }
+                laundered_ok += 1;
+                tally(&mut local, "segment+compaction", field, &m, true);
+                Ok(())
+            }
+        }
+    })?;
+    flush_tally(local);
+    let _ = laundered_ok;
+    ctx.add_evaluations(count);
+    ctx.label(if k == 2 { "segments_2" } else { "segments_3" });
+    ctx.nontrivial(&(3u8, &case.world));
+    Ok(())
+}
+
+fn compact_case() -> impl Strategy<Value = CompactCase> {
+    let cfg = GenCfg {
+        max_ops: 8,
+        crdt: false,
+        typed: true,
+        ..mut_cfg()
+    };
+    (
+        worldgen::world(cfg),
+        2u8..=3,
+        any::<u8>(),
+        any::<u8>(),
+        proptest::collection::vec((any::<u16>(), any::<u8>()), 48),
+    )
+        .prop_map(|(world, parts, which, min_segments, samples)| CompactCase {
+            world,
+            parts,
+            which,
+            min_segments,
+            samples,
+        })
+}
+
+/// The code under test reports unreadable segments with `eprintln!` (compaction.rs); under
+/// mutation enumeration that is millions of lines. The check therefore runs itself as a child
+/// process and forwards the child's stderr minus exactly those diagnostics; stdout (verdict
+/// lines) and the exit status pass through untouched. (Same device as C12/C13.)
+fn run_with_filtered_stderr(tag: &str) {
+    use std::io::{BufRead, BufReader};
+    use std::os::unix::process::CommandExt;
+    use std::process::{Command, Stdio};
+    if std::env::var_os("VERIF_FILTER_CHILD").is_some() {
+        return;
+    }
+    const NOISE: &[&str] = &[
+        "Segment ",
+        "Failed to open segment ",
+        "Invalid segment ",
+        "Failed to read delta",
+    ];
+    let Ok(exe) = std::env::current_exe() else { return };
+    let mut cmd = Command::new(exe);
+    cmd.args(std::env::args_os().skip(1))
+        .env("VERIF_FILTER_CHILD", "1")
+        .stderr(Stdio::piped());
+    unsafe {
+        cmd.pre_exec(|| {
+            libc::prctl(libc::PR_SET_PDEATHSIG, libc::SIGKILL);
+            Ok(())
+        });
+    }
+    let Ok(mut child) = cmd.spawn() else { return };
+    let mut suppressed = 0u64;
+    if let Some(err) = child.stderr.take() {
+        for line in BufReader::new(err).split(b'\n').flatten() {
+            let text = String::from_utf8_lossy(&line);
+            if NOISE.iter().any(|p| text.starts_with(p)) {
+                suppressed += 1;
+            } else {
+                eprintln!("{}", text);
+            }
+        }
+    }
+    let status = child.wait();
+    if suppressed > 0 {
+        eprintln!(
+            "[{}] {} diagnostic lines printed by the code under test (unreadable segments during compaction) not shown",
+            tag, suppressed
+        );
+    }
+    std::process::exit(match status {
+        Ok(s) => s.code().unwrap_or(2),
+        Err(_) => 2,
+    });
+}
+
 fn main() {
+    run_with_filtered_stderr("C14");
     let args = vcore::parse_args();
     let s = Session::new(
         "C14",
@@ -1043,7 +1499,7 @@ fn main() {
     s.describe_check("roundtrip", "batch of 1-50 updates through every encoding; projection identical");
     s.run_cases(
         "roundtrip",
-        s.scale(3_000, 150_000),
+        s.scale(1_500, 150_000),
         || {
             (
                 worldgen::world(rt_cfg()),
@@ -1063,12 +1519,17 @@ fn main() {
         check_roundtrip,
     );
 
+    s.describe_check("roundtrip_sizes", "serialized update of exactly 64 KiB, 1 MiB-64..1 MiB+64, 2 MiB, 8 MiB (one string / a 64-field hash) between two small updates, through every encoding and a WAL file set");
+    s.run_enumerated("roundtrip_sizes", size_cases().into_iter(), check_sizes);
+
     s.describe_check("mut_segment", "all truncations + all byte mutations of one segment image; error or identical");
-    s.run_cases("mut_segment", s.scale(1_200, 24_000), mut_case, check_mut_segment);
+    s.run_cases("mut_segment", s.scale(600, 24_000), mut_case, check_mut_segment);
     s.describe_check("mut_checkpoint", "all truncations + all byte mutations of one checkpoint image; error or identical");
-    s.run_cases("mut_checkpoint", s.scale(1_200, 24_000), mut_case, check_mut_checkpoint);
+    s.run_cases("mut_checkpoint", s.scale(600, 24_000), mut_case, check_mut_checkpoint);
     s.describe_check("mut_wal", "all truncations + all byte mutations of every file of a WAL file set; prefix of the written entries, identical data");
-    s.run_cases("mut_wal", s.scale(1_200, 24_000), mut_case, check_mut_wal);
+    s.run_cases("mut_wal", s.scale(600, 24_000), mut_case, check_mut_wal);
+    s.describe_check("mut_segment_compact", "structural + sampled mutations of one of 2-3 segments, then Compactor::compact, then RecoveryManager::recover: error, or the merge of what was written");
+    s.run_cases("mut_segment_compact", s.scale(150, 12_000), compact_case, check_mut_segment_compact);
 
     let g = OUTCOMES.lock().unwrap();
     let table: BTreeMap<&String, J> = g
